@@ -1,5 +1,2047 @@
-//! C11 - monitor not built yet.
+//! C11 - Full-text index retrieves exactly the matching documents, ranked stably.
+//! Monitors (DESIGN.md C11): sequential histories against a naive inverted index through every
+//! public read API, flush crash prefixes (incl. failed / unknown-outcome flush + retry, legacy
+//! layout), controlled 2-3 thread schedules at the `bm25.*` verif points with a per-document
+//! linearizability check, hook-driven stress.
+
+use anda_db_tfs::{
+    BM25Config, BM25Error, BM25Index, BM25Metadata, BM25Params, BoxError, BucketObject,
+    QueryType, TokenizerChain, collect_tokens, default_tokenizer,
+};
+use std::cell::RefCell;
+use std::collections::{BTreeMap, BTreeSet, HashMap};
+use std::sync::Arc;
+use std::sync::atomic::{AtomicBool, AtomicU64, Ordering};
+use std::time::Duration;
+use vcore::manual::{Chooser, DfsChooser, RandChooser, drive};
+use vcore::sched::{SchedEnd, TurnSched};
+use vcore::{Rng, Run, Stats, Value, json};
+
+type Idx = BM25Index<TokenizerChain>;
+type Toks = BTreeMap<String, usize>;
+
+/// `--arg strict_stale=1`: report the (undocumented) grey zone "a stale posting left by a remove
+/// with non-original text becomes visible again once the id is re-inserted" as a violation.
+static STRICT_STALE: AtomicBool = AtomicBool::new(false);
+
+// ---------------------------------------------------------------------------------------------
+// vocabulary, ids, tokenizer (the crate's default tokenizer, shared by index and model)
+
+/// Words the Porter stemmer maps to themselves (same alphabet as tests/proptest_model.rs).
+const WORDS: [&str; 12] = [
+    "red", "blue", "fox", "dog", "sun", "moon", "rock", "wind", "salt", "gold", "iron", "wolf",
+];
+/// Inflected / cased forms: the model tokenizes with the same tokenizer, so stemming is shared.
+const VARIANTS: [&str; 5] = ["foxes", "dogs", "rocks", "Winds", "RED"];
+/// Texts whose token set is empty (tokens of byte length <= 1 are dropped by `collect_tokens`).
+const EMPTY_TEXTS: [&str; 6] = ["", " ", "a", "x y", "! ?", "5 - 7"];
+/// Plain `search` queries evaluated after every operation.
+const TERM_QUERIES: [&str; 20] = [
+    "red", "blue", "fox", "dog", "sun", "moon", "rock", "wind", "salt", "gold", "iron", "wolf",
+    "foxes", "Dogs", "zebra", "a", "", "  RED ", "red blue", "wolf, zebra",
+];
+/// Leaves of generated boolean queries (lower case: the parser lower-cases terms).
+const BOOL_WORDS: [&str; 16] = [
+    "red", "blue", "fox", "dog", "sun", "moon", "rock", "wind", "salt", "gold", "iron", "wolf",
+    "foxes", "dogs", "zebra", "a",
+];
+/// Document ids: small ones plus the CBOR width boundaries and the extremes.
+const IDS: [u64; 20] = [
+    0, 1, 2, 3, 4, 5, 6, 7, 8, 9, 10, 23, 24, 255, 256, 65535, 65536, 1 << 32, u64::MAX - 1,
+    u64::MAX,
+];
+const BIG: usize = 1000;
+
+thread_local! {
+    static TOK: RefCell<Option<TokenizerChain>> = const { RefCell::new(None) };
+    static TOK_CACHE: RefCell<HashMap<String, Arc<Toks>>> = RefCell::new(HashMap::new());
+}
+
+fn tokenizer() -> TokenizerChain {
+    TOK.with(|t| t.borrow_mut().get_or_insert_with(default_tokenizer).clone())
+}
+
+/// Token multiset of a text, computed with the crate's own tokenizer and `collect_tokens`.
+fn toks(text: &str) -> Arc<Toks> {
+    if let Some(t) = TOK_CACHE.with(|c| c.borrow().get(text).cloned()) {
+        return t;
+    }
+    let mut tk = tokenizer();
+    let t: Arc<Toks> = Arc::new(collect_tokens(&mut tk, text, None).into_iter().collect());
+    TOK_CACHE.with(|c| {
+        let mut c = c.borrow_mut();
+        if c.len() > 100_000 {
+            c.clear();
+        }
+        c.insert(text.to_string(), t.clone());
+    });
+    t
+}
+
+fn pw(rng: &mut Rng, xs: &[&'static str]) -> &'static str {
+    xs[rng.usize(xs.len())]
+}
+
+fn gen_text(rng: &mut Rng) -> String {
+    let n = 1 + rng.usize(6);
+    let mut s = String::new();
+    for i in 0..n {
+        if i > 0 {
+            s.push_str(pw(rng, &[" ", " ", " ", ", ", "  ", " - ", ". "]));
+        }
+        if rng.chance(1, 7) {
+            s.push_str(pw(rng, &VARIANTS));
+        } else {
+            // skewed: low indices are common words, high ones rare (single-owner postings)
+            let i = rng.usize(WORDS.len()).min(rng.usize(WORDS.len() + 3));
+            s.push_str(WORDS[i.min(WORDS.len() - 1)]);
+        }
+    }
+    s
+}
+
+// ---------------------------------------------------------------------------------------------
+// reference model: naive inverted index + the documented stale-posting bookkeeping
+
+#[derive(Clone, Debug, PartialEq)]
+struct Doc {
+    text: String,
+    toks: Arc<Toks>,
+    len: usize,
+}
+
+#[derive(Clone, Debug, Default)]
+struct Model {
+    docs: BTreeMap<u64, Doc>,
+    /// id -> token -> term frequencies of posting entries that a `remove` with non-original text
+    /// left behind (documented: searches skip them while the id is not indexed, load prunes
+    /// them for ids that are not indexed). Only used to delimit what is *not* asserted.
+    stale: BTreeMap<u64, BTreeMap<String, BTreeSet<usize>>>,
+    /// generator aid: the text an id had when it was removed with non-original text
+    last_text: BTreeMap<u64, String>,
+}
+
+#[derive(Clone, Debug)]
+enum Op {
+    Insert(u64, String),
+    Remove(u64, String),
+    Purge(Vec<u64>),
+    Compact,
+    Flush { reload: bool },
+}
+
+#[derive(Debug, Clone, PartialEq)]
+enum Ret {
+    Ok,
+    AlreadyExists,
+    TokenizeFailed,
+    /// id exists *and* the text has no tokens: both documented errors apply, precedence is not
+    /// documented
+    RejectedEither,
+    Bool(bool),
+    Count(usize),
+    Unit,
+    Err(String),
+}
+
+fn ret_agrees(got: &Ret, exp: &Ret) -> bool {
+    match exp {
+        Ret::RejectedEither => matches!(got, Ret::AlreadyExists | Ret::TokenizeFailed),
+        _ => got == exp,
+    }
+}
+
+impl Model {
+    fn apply(&mut self, op: &Op, st: &mut Stats) -> Ret {
+        match op {
+            Op::Insert(id, text) => {
+                let d = toks(text);
+                if d.is_empty() {
+                    st.count("op_insert_tokenize_failed");
+                    return if self.docs.contains_key(id) {
+                        Ret::RejectedEither
+                    } else {
+                        Ret::TokenizeFailed
+                    };
+                }
+                if self.docs.contains_key(id) {
+                    st.count("op_insert_already_exists");
+                    return Ret::AlreadyExists;
+                }
+                if let Some(s) = self.stale.get_mut(id) {
+                    st.count("op_reinsert_after_non_original_remove");
+                    if self.last_text.get(id).map(|t| toks(t) == d).unwrap_or(false) {
+                        st.count("op_reinsert_same_tokens");
+                    } else {
+                        st.count("op_reinsert_different_tokens");
+                    }
+                    // an identical (id, tf) entry is the same posting entry again
+                    for (t, f) in d.iter() {
+                        if let Some(fs) = s.get_mut(t) {
+                            fs.remove(f);
+                            if fs.is_empty() {
+                                s.remove(t);
+                            }
+                        }
+                    }
+                    if s.is_empty() {
+                        self.stale.remove(id);
+                    }
+                }
+                self.last_text.remove(id);
+                st.count("op_insert_ok");
+                let len = d.values().sum();
+                self.docs.insert(*id, Doc { text: text.clone(), toks: d, len });
+                Ret::Ok
+            }
+            Op::Remove(id, text) => {
+                let t = toks(text);
+                let cur = self.docs.remove(id);
+                let s = self.stale.entry(*id).or_default();
+                let mut left = false;
+                if let Some(doc) = &cur {
+                    for (tok, f) in doc.toks.iter() {
+                        if !t.contains_key(tok) {
+                            s.entry(tok.clone()).or_default().insert(*f);
+                            left = true;
+                        }
+                    }
+                }
+                for tok in t.keys() {
+                    s.remove(tok);
+                }
+                let now_clean = s.is_empty();
+                if now_clean {
+                    self.stale.remove(id);
+                    self.last_text.remove(id);
+                }
+                match &cur {
+                    Some(doc) if left => {
+                        st.count("op_remove_non_original");
+                        self.last_text.insert(*id, doc.text.clone());
+                    }
+                    Some(_) => st.count("op_remove_original"),
+                    None => st.count("op_remove_missing"),
+                }
+                Ret::Bool(cur.is_some())
+            }
+            Op::Purge(ids) => {
+                let mut n = 0;
+                let set: BTreeSet<u64> = ids.iter().copied().collect();
+                for id in &set {
+                    if self.docs.remove(id).is_some() {
+                        n += 1;
+                    }
+                    if self.stale.remove(id).is_some() {
+                        st.count("op_purge_clears_stale");
+                    }
+                    self.last_text.remove(id);
+                }
+                st.count("op_purge");
+                if n > 0 {
+                    st.count("op_purge_hit");
+                }
+                Ret::Count(n)
+            }
+            Op::Compact => {
+                st.count("op_compact");
+                Ret::Unit
+            }
+            Op::Flush { .. } => Ret::Unit,
+        }
+    }
+
+    /// What a load of a complete snapshot of this state holds: stale entries of ids that are
+    /// not indexed are pruned (documented), those of indexed ids stay.
+    fn reloaded(&self) -> Model {
+        let mut m = self.clone();
+        m.stale.retain(|id, _| m.docs.contains_key(id));
+        m.last_text.retain(|id, _| m.stale.contains_key(id));
+        m
+    }
+
+    /// (must match, may match) for a plain query with tokens `q` (multiple tokens = OR).
+    fn term_sets(&self, q: &Toks) -> (BTreeSet<u64>, BTreeSet<u64>) {
+        let mut lo = BTreeSet::new();
+        let mut hi = BTreeSet::new();
+        for (id, d) in &self.docs {
+            if q.keys().any(|t| d.toks.contains_key(t)) {
+                lo.insert(*id);
+                hi.insert(*id);
+            } else if let Some(s) = self.stale.get(id)
+                && q.keys().any(|t| s.contains_key(t))
+            {
+                hi.insert(*id);
+            }
+        }
+        (lo, hi)
+    }
+
+    /// No indexed document carries a stale entry for any token of `q`: df and tf are exact.
+    fn clean(&self, q: &Toks) -> bool {
+        self.stale
+            .iter()
+            .all(|(id, s)| !self.docs.contains_key(id) || q.keys().all(|t| !s.contains_key(t)))
+    }
+
+    fn mean_len(&self) -> f64 {
+        if self.docs.is_empty() {
+            return 0.0;
+        }
+        self.docs.values().map(|d| d.len as f64).sum::<f64>() / self.docs.len() as f64
+    }
+
+    /// The documented Okapi BM25 (docs/anda_db_tfs.md section 2, `BM25Params` docs).
+    fn scores(&self, q: &Toks, k1: f64, b: f64) -> BTreeMap<u64, f64> {
+        let n = self.docs.len() as f64;
+        let avgdl = self.mean_len();
+        let mut out = BTreeMap::new();
+        for t in q.keys() {
+            let df = self.docs.values().filter(|d| d.toks.contains_key(t)).count() as f64;
+            if df == 0.0 {
+                continue;
+            }
+            let idf = (1.0 + (n - df + 0.5) / (df + 0.5)).ln();
+            for (id, d) in &self.docs {
+                if let Some(tf) = d.toks.get(t) {
+                    let tf = *tf as f64;
+                    let c = tf * (k1 + 1.0) / (tf + k1 * (1.0 - b + b * d.len as f64 / avgdl));
+                    *out.entry(*id).or_insert(0.0) += idf * c;
+                }
+            }
+        }
+        out
+    }
+
+    /// Interval evaluation of a boolean query: NOT = complement within the indexed documents.
+    fn eval(&self, q: &QueryType) -> (BTreeSet<u64>, BTreeSet<u64>) {
+        match q {
+            QueryType::Term(t) => self.term_sets(&toks(t)),
+            QueryType::Or(v) => {
+                let mut lo = BTreeSet::new();
+                let mut hi = BTreeSet::new();
+                for c in v {
+                    let (l, h) = self.eval(c);
+                    lo.extend(l);
+                    hi.extend(h);
+                }
+                (lo, hi)
+            }
+            QueryType::And(v) => {
+                let mut it = v.iter();
+                let Some(first) = it.next() else {
+                    return (BTreeSet::new(), BTreeSet::new());
+                };
+                let (mut lo, mut hi) = self.eval(first);
+                for c in it {
+                    let (l, h) = self.eval(c);
+                    lo = lo.intersection(&l).copied().collect();
+                    hi = hi.intersection(&h).copied().collect();
+                }
+                (lo, hi)
+            }
+            QueryType::Not(c) => {
+                let (l, h) = self.eval(c);
+                let all: BTreeSet<u64> = self.docs.keys().copied().collect();
+                (all.difference(&h).copied().collect(), all.difference(&l).copied().collect())
+            }
+        }
+    }
+}
+
+/// Documented parameter sanitising: non-finite -> defaults, k1 -> [0, MAX_K1], b -> [0, 1].
+fn sanitize(p: &BM25Params) -> (f64, f64) {
+    let d = BM25Params::default();
+    let k1 = if p.k1.is_finite() { p.k1.clamp(0.0, BM25Params::MAX_K1) } else { d.k1 };
+    let b = if p.b.is_finite() { p.b.clamp(0.0, 1.0) } else { d.b };
+    (k1 as f64, b as f64)
+}
+
+fn param_list() -> Vec<(BM25Params, bool)> {
+    // (params, out of the natural domain?)
+    let p = |k1: f32, b: f32| BM25Params { k1, b };
+    vec![
+        (p(1.2, 0.75), false),
+        (p(0.0, 0.75), false),
+        (p(1.2, 0.0), false),
+        (p(1.2, 1.0), false),
+        (p(2.0, 0.5), false),
+        (p(f32::NAN, 0.75), true),
+        (p(1.2, f32::NAN), true),
+        (p(f32::NAN, f32::NAN), true),
+        (p(f32::INFINITY, 0.75), true),
+        (p(1.2, f32::INFINITY), true),
+        (p(f32::NEG_INFINITY, f32::NEG_INFINITY), true),
+        (p(-1.0, 0.5), true),
+        (p(1.2, -3.0), true),
+        (p(f32::MAX, 0.75), true),
+        (p(f32::MAX, f32::MAX), true),
+        (p(f32::MIN, f32::MIN), true),
+        (p(5000.0, 2.0), true),
+        (p(f32::MIN_POSITIVE, f32::MIN_POSITIVE), false),
+    ]
+}
+
+// ---------------------------------------------------------------------------------------------
+// operation generator
+
+/// `allow_grey = false`: never index a document over posting entries that a remove with
+/// non-original text left behind for its id, unless the insert makes all of them current again
+/// (the id's text at the time of that remove does). See `FINDING_SIG`.
+fn gen_op(rng: &mut Rng, m: &Model, allow_grey: bool) -> Op {
+    let op = gen_op_any(rng, m);
+    if let Op::Insert(id, text) = &op
+        && !allow_grey
+        && !m.docs.contains_key(id)
+        && let Some(s) = m.stale.get(id)
+    {
+        let d = toks(text);
+        let covers = s.iter().all(|(t, fs)| fs.len() == 1 && d.get(t) == fs.iter().next());
+        if !d.is_empty() && !covers {
+            return Op::Insert(*id, m.last_text.get(id).cloned().unwrap_or_default());
+        }
+    }
+    op
+}
+
+fn gen_op_any(rng: &mut Rng, m: &Model) -> Op {
+    let live: Vec<u64> = m.docs.keys().copied().collect();
+    let ghosts: Vec<u64> =
+        m.stale.keys().filter(|id| !m.docs.contains_key(id)).copied().collect();
+    let absent: Vec<u64> = IDS.iter().filter(|id| !m.docs.contains_key(id)).copied().collect();
+    let fresh_insert = |rng: &mut Rng| {
+        let id = if !absent.is_empty() && rng.chance(5, 6) { *rng.pick(&absent) } else { *rng.pick(&IDS) };
+        Op::Insert(id, gen_text(rng))
+    };
+    match rng.weighted(&[28, 5, 4, 14, 10, 4, 10, 6, 6, 5, 5]) {
+        0 => fresh_insert(rng),
+        1 => {
+            if live.is_empty() {
+                fresh_insert(rng)
+            } else {
+                Op::Insert(*rng.pick(&live), gen_text(rng))
+            }
+        }
+        2 => Op::Insert(*rng.pick(&IDS), rng.pick(&EMPTY_TEXTS).to_string()),
+        3 => {
+            if live.is_empty() {
+                return fresh_insert(rng);
+            }
+            let id = *rng.pick(&live);
+            let text = m.docs[&id].text.clone();
+            // the same tokens in another surface form are as good as the original text
+            Op::Remove(id, if rng.chance(1, 5) { text.to_uppercase() } else { text })
+        }
+        4 => {
+            if live.is_empty() {
+                return fresh_insert(rng);
+            }
+            let id = *rng.pick(&live);
+            let orig = &m.docs[&id].text;
+            let text = match rng.below(5) {
+                0 => String::new(),
+                1 => "zebra".to_string(),
+                2 => orig.split_whitespace().next().unwrap_or("").to_string(),
+                _ => gen_text(rng),
+            };
+            Op::Remove(id, text)
+        }
+        5 => {
+            // not indexed: a ghost (cleans stale entries, returns false) or a plain miss
+            if !ghosts.is_empty() && rng.chance(2, 3) {
+                let id = *rng.pick(&ghosts);
+                let text = if rng.bool() {
+                    m.last_text.get(&id).cloned().unwrap_or_default()
+                } else {
+                    gen_text(rng)
+                };
+                Op::Remove(id, text)
+            } else if !absent.is_empty() {
+                Op::Remove(*rng.pick(&absent), gen_text(rng))
+            } else {
+                fresh_insert(rng)
+            }
+        }
+        6 => {
+            if ghosts.is_empty() {
+                return fresh_insert(rng);
+            }
+            let id = *rng.pick(&ghosts);
+            let text = match (rng.chance(3, 5), m.last_text.get(&id)) {
+                (true, Some(t)) => t.clone(),
+                _ => gen_text(rng),
+            };
+            Op::Insert(id, text)
+        }
+        7 => {
+            let n = 1 + rng.usize(3);
+            let ids = (0..n)
+                .map(|_| {
+                    if !live.is_empty() && rng.chance(2, 3) {
+                        *rng.pick(&live)
+                    } else if !ghosts.is_empty() && rng.bool() {
+                        *rng.pick(&ghosts)
+                    } else {
+                        *rng.pick(&IDS)
+                    }
+                })
+                .collect();
+            Op::Purge(ids)
+        }
+        8 => Op::Compact,
+        9 => Op::Flush { reload: false },
+        _ => Op::Flush { reload: true },
+    }
+}
+
+fn index_apply(idx: &Idx, op: &Op, now: u64) -> Ret {
+    match op {
+        Op::Insert(id, text) => match idx.insert(*id, text, now) {
+            Ok(()) => Ret::Ok,
+            Err(BM25Error::AlreadyExists { .. }) => Ret::AlreadyExists,
+            Err(BM25Error::TokenizeFailed { .. }) => Ret::TokenizeFailed,
+            Err(e) => Ret::Err(format!("{e:?}")),
+        },
+        Op::Remove(id, text) => Ret::Bool(idx.remove(*id, text, now)),
+        Op::Purge(ids) => {
+            let set: BTreeSet<u64> = ids.iter().copied().collect();
+            Ret::Count(idx.purge_ids(&set, now))
+        }
+        Op::Compact => {
+            idx.compact_buckets();
+            Ret::Unit
+        }
+        Op::Flush { .. } => Ret::Unit,
+    }
+}
+
+fn new_index(overload: usize, params: &BM25Params) -> Idx {
+    BM25Index::new(
+        "c11".to_string(),
+        tokenizer(),
+        Some(BM25Config { bm25: params.clone(), bucket_overload_size: overload }),
+    )
+}
+
+// ---------------------------------------------------------------------------------------------
+// boolean query trees: generated as ASTs, rendered in the documented grammar
+
+fn term(w: &str) -> Box<QueryType> {
+    Box::new(QueryType::Term(w.to_string()))
+}
+
+fn gen_query(rng: &mut Rng, depth: usize) -> QueryType {
+    if depth == 0 || rng.chance(1, 3) {
+        if rng.chance(1, 6) {
+            // whitespace-separated words at the term level: implicit OR
+            QueryType::Or(vec![term(pw(rng, &BOOL_WORDS)), term(pw(rng, &BOOL_WORDS))])
+        } else {
+            QueryType::Term(pw(rng, &BOOL_WORDS).to_string())
+        }
+    } else {
+        match rng.below(3) {
+            0 => QueryType::And(
+                (0..2 + rng.usize(2)).map(|_| Box::new(gen_query(rng, depth - 1))).collect(),
+            ),
+            1 => QueryType::Or(
+                (0..2 + rng.usize(2)).map(|_| Box::new(gen_query(rng, depth - 1))).collect(),
+            ),
+            _ => QueryType::Not(Box::new(gen_query(rng, depth - 1))),
+        }
+    }
+}
+
+fn all_terms(v: &[Box<QueryType>]) -> bool {
+    v.iter().all(|c| matches!(c.as_ref(), QueryType::Term(_)))
+}
+
+/// `implicit`: render an OR of plain words as "w1 w2" (the grammar's term-level default).
+fn render(q: &QueryType, implicit: bool) -> String {
+    fn atom(c: &QueryType, under_not: bool, implicit: bool) -> String {
+        match c {
+            QueryType::Term(w) => w.clone(),
+            QueryType::Not(_) if !under_not => render(c, implicit),
+            QueryType::Or(v) if implicit && all_terms(v) && v.len() > 1 => render(c, implicit),
+            _ => format!("({})", render(c, implicit)),
+        }
+    }
+    match q {
+        QueryType::Term(w) => w.clone(),
+        QueryType::Or(v) if implicit && all_terms(v) && v.len() > 1 => {
+            v.iter().map(|c| render(c, implicit)).collect::<Vec<_>>().join(" ")
+        }
+        QueryType::Or(v) => {
+            v.iter().map(|c| atom(c, false, implicit)).collect::<Vec<_>>().join(" OR ")
+        }
+        QueryType::And(v) => {
+            v.iter().map(|c| atom(c, false, implicit)).collect::<Vec<_>>().join(" AND ")
+        }
+        QueryType::Not(c) => format!("NOT {}", atom(c, true, implicit)),
+    }
+}
+
+fn shape(q: &QueryType) -> String {
+    match q {
+        QueryType::Term(_) => "T".into(),
+        QueryType::And(v) => format!("A({})", v.iter().map(|q| shape(q)).collect::<Vec<_>>().join("")),
+        QueryType::Or(v) => format!("O({})", v.iter().map(|q| shape(q)).collect::<Vec<_>>().join("")),
+        QueryType::Not(q) => format!("N{}", shape(q)),
+    }
+}
+
+fn has_double_negation(q: &QueryType) -> bool {
+    match q {
+        QueryType::Term(_) => false,
+        QueryType::Not(c) => matches!(c.as_ref(), QueryType::Not(_)) || has_double_negation(c),
+        QueryType::And(v) | QueryType::Or(v) => v.iter().any(|c| has_double_negation(c)),
+    }
+}
+
+fn has_all_not_conjunction(q: &QueryType) -> bool {
+    match q {
+        QueryType::Term(_) => false,
+        QueryType::Not(c) => has_all_not_conjunction(c),
+        QueryType::And(v) => {
+            (v.len() > 1 && v.iter().all(|c| matches!(c.as_ref(), QueryType::Not(_))))
+                || v.iter().any(|c| has_all_not_conjunction(c))
+        }
+        QueryType::Or(v) => v.iter().any(|c| has_all_not_conjunction(c)),
+    }
+}
+
+/// Shapes the property names explicitly; cycled through so that every run sees all of them.
+fn fixed_query(i: u64, rng: &mut Rng) -> QueryType {
+    let mut w = || term(pw(rng, &BOOL_WORDS[..12]));
+    let not = |q: Box<QueryType>| Box::new(QueryType::Not(q));
+    match i % 8 {
+        0 => QueryType::And(vec![not(w()), not(w())]),
+        1 => QueryType::And(vec![not(w()), not(w()), not(w())]),
+        2 => QueryType::Not(not(w())),
+        3 => QueryType::And(vec![w(), not(not(w()))]),
+        4 => QueryType::Not(w()),
+        5 => QueryType::And(vec![not(w()), w()]),
+        6 => QueryType::Or(vec![w(), not(w())]),
+        _ => QueryType::And(vec![w(), not(Box::new(QueryType::Or(vec![w(), not(w())])))]),
+    }
+}
+
+// ---------------------------------------------------------------------------------------------
+// audit: every public read API against the model
+
+struct Au<'a> {
+    what: &'a str,
+    ctx: &'a dyn Fn() -> Value,
+}
+
+impl Au<'_> {
+    fn fail(&self, st: &mut Stats, sig: &str, d: Value) {
+        st.violation(
+            format!("C11/{}/{}", self.what, sig),
+            json!({"what": d, "context": (self.ctx)()}),
+        );
+    }
+}
+
+fn show(v: &[(u64, f32)]) -> Vec<String> {
+    v.iter().map(|(id, s)| format!("{id}:{s}")).collect()
+}
+
+fn bits(v: &[(u64, f32)]) -> Vec<(u64, u32)> {
+    v.iter().map(|(id, s)| (*id, s.to_bits())).collect()
+}
+
+/// finite, non-negative, non-increasing, ties by ascending id, no id twice
+fn check_ranked(v: &[(u64, f32)], nonneg: bool) -> Result<(), String> {
+    let mut seen = BTreeSet::new();
+    for (i, (id, s)) in v.iter().enumerate() {
+        if !s.is_finite() {
+            return Err(format!("score of document {id} is {s}"));
+        }
+        if nonneg && *s < 0.0 {
+            return Err(format!("score of document {id} is negative: {s}"));
+        }
+        if !seen.insert(*id) {
+            return Err(format!("document {id} returned twice"));
+        }
+        if i > 0 {
+            let (pid, ps) = v[i - 1];
+            if !(ps > *s || (ps == *s && pid < *id)) {
+                return Err(format!(
+                    "order broken at position {i}: ({pid}, {ps}) before ({id}, {s})"
+                ));
+            }
+        }
+    }
+    Ok(())
+}
+
+/// Accounts for (and in strict mode reports) results inside the stale-entry grey zone.
+fn grey(st: &mut Stats, au: &Au, query: &str, got: &BTreeSet<u64>, lo: &BTreeSet<u64>) {
+    st.count("grey_queries_touching_stale_entries_of_indexed_docs");
+    let extra: Vec<u64> = got.difference(lo).copied().collect();
+    if !extra.is_empty() {
+        st.add("grey_hits_via_stale_entry_after_reinsert", extra.len() as u64);
+        if STRICT_STALE.load(Ordering::Relaxed) {
+            st.violation(
+                "C11/candidate/stale_token_resurrected_by_reinsert",
+                json!({"query": query, "documents_without_the_token": extra,
+                       "context": (au.ctx)()}),
+            );
+        }
+    }
+}
+
+#[allow(clippy::too_many_arguments)]
+fn check_term_query(
+    idx: &Idx,
+    m: &Model,
+    q: &str,
+    params: Option<&BM25Params>,
+    cfgp: &BM25Params,
+    deep: bool,
+    rng: &mut Rng,
+    st: &mut Stats,
+    au: &Au,
+) -> Option<BTreeSet<u64>> {
+    let qt = toks(q);
+    let p = || params.cloned();
+    let full = idx.search(q, BIG, p());
+    st.count("oracle_term_query");
+    let detail = |x: Value| json!({"query": q, "params": params.map(|p| format!("{p:?}")), "got": show(&full), "problem": x});
+    if let Err(e) = check_ranked(&full, true) {
+        au.fail(st, "term_ranking", detail(json!(e)));
+        return None;
+    }
+    let got: BTreeSet<u64> = full.iter().map(|(id, _)| *id).collect();
+    let (lo, hi) = m.term_sets(&qt);
+    if !(lo.is_subset(&got) && got.is_subset(&hi)) {
+        au.fail(st, "term_set", detail(json!({"must": lo, "may": hi})));
+        return None;
+    }
+    if lo != hi {
+        grey(st, au, q, &got, &lo);
+    }
+    if m.clean(&qt) {
+        let (k1, b) = sanitize(params.unwrap_or(cfgp));
+        let exp = m.scores(&qt, k1, b);
+        st.count("oracle_score_formula");
+        for (id, s) in &full {
+            let e = exp.get(id).copied().unwrap_or(f64::NAN);
+            let s = *s as f64;
+            if !((s - e).abs() <= 1e-4 * e.abs().max(s.abs()) + 1e-6) {
+                au.fail(st, "term_score", detail(json!({"document": id, "expected_score": e,
+                    "k1": k1, "b": b})));
+                return None;
+            }
+        }
+    }
+    if !idx.search(q, 0, p()).is_empty() {
+        au.fail(st, "top_k_zero", detail(json!("top_k = 0 returned documents")));
+        return None;
+    }
+    // two tokens sum commutatively; with three or more the crate adds in hash-map order, so
+    // the last bit of a score (and with it a near-tie) is not pinned
+    let strict = qt.len() <= 2;
+    let ks: Vec<usize> = if deep {
+        (1..=full.len() + 1).collect()
+    } else {
+        vec![1, full.len().max(1), full.len() + 1, 1 + rng.usize(full.len() + 1)]
+    };
+    for k in ks {
+        let top = idx.search(q, k, p());
+        st.count("oracle_prefix_law");
+        let exp = &full[..k.min(full.len())];
+        let ok = if strict {
+            bits(&top) == bits(exp)
+        } else {
+            top.len() == exp.len()
+                && check_ranked(&top, true).is_ok()
+                && top.iter().all(|(id, _)| got.contains(id))
+        };
+        if !ok {
+            au.fail(st, "term_prefix_law", detail(json!({"k": k, "top_k": show(&top)})));
+            return None;
+        }
+    }
+    let again = idx.search(q, BIG, p());
+    st.count("oracle_repeat");
+    let same = if strict {
+        bits(&again) == bits(&full)
+    } else {
+        again.iter().map(|(id, _)| *id).collect::<BTreeSet<_>>() == got
+    };
+    if !same {
+        au.fail(st, "term_repeat", detail(json!({"second": show(&again)})));
+        return None;
+    }
+    Some(got)
+}
+
+fn check_bool_query(
+    idx: &Idx,
+    m: &Model,
+    q: &QueryType,
+    params: Option<&BM25Params>,
+    rng: &mut Rng,
+    st: &mut Stats,
+    au: &Au,
+) -> Option<BTreeSet<u64>> {
+    let text = render(q, rng.bool());
+    let p = || params.cloned();
+    st.count("oracle_bool_query");
+    st.set("bool_query_shapes", vcore::fnv_str(&shape(q)));
+    if has_double_negation(q) {
+        st.count("bool_double_negation");
+    }
+    if has_all_not_conjunction(q) {
+        st.count("bool_all_not_conjunction");
+    }
+    if matches!(q, QueryType::Not(_)) {
+        st.count("bool_top_level_not");
+    }
+    match QueryType::try_parse(&text) {
+        Ok(parsed) if &parsed == q => {}
+        other => {
+            au.fail(st, "bool_parse_structure", json!({"text": text,
+                "intended": format!("{q:?}"), "parsed": format!("{other:?}")}));
+            return None;
+        }
+    }
+    let full = match idx.try_search_advanced(&text, BIG, p()) {
+        Ok(v) => v,
+        Err(e) => {
+            au.fail(st, "bool_error", json!({"query": text, "error": format!("{e:?}")}));
+            return None;
+        }
+    };
+    let detail = |x: Value| json!({"query": text, "params": params.map(|p| format!("{p:?}")), "got": show(&full), "problem": x});
+    if let Err(e) = check_ranked(&full, true) {
+        au.fail(st, "bool_ranking", detail(json!(e)));
+        return None;
+    }
+    let got: BTreeSet<u64> = full.iter().map(|(id, _)| *id).collect();
+    let (lo, hi) = m.eval(q);
+    if !(lo.is_subset(&got) && got.is_subset(&hi)) {
+        au.fail(st, "bool_set", detail(json!({"must": lo, "may": hi})));
+        return None;
+    }
+    if lo != hi {
+        grey(st, au, &text, &got, &lo);
+    }
+    for k in [1, 1 + rng.usize(full.len() + 1), full.len() + 1] {
+        let top = match idx.try_search_advanced(&text, k, p()) {
+            Ok(v) => v,
+            Err(e) => {
+                au.fail(st, "bool_error", json!({"query": text, "error": format!("{e:?}")}));
+                return None;
+            }
+        };
+        st.count("oracle_prefix_law");
+        if bits(&top) != bits(&full[..k.min(full.len())]) {
+            au.fail(st, "bool_prefix_law", detail(json!({"k": k, "top_k": show(&top)})));
+            return None;
+        }
+    }
+    let again = idx.search_advanced(&text, BIG, p());
+    st.count("oracle_repeat");
+    if bits(&again) != bits(&full) {
+        au.fail(st, "bool_repeat", detail(json!({"second": show(&again)})));
+        return None;
+    }
+    Some(got)
+}
+
+#[derive(Clone, Copy, PartialEq)]
+enum Depth {
+    /// counters, invariants, every vocabulary term, a few boolean queries
+    Light,
+    /// + random queries, every k, parameter sweep
+    Full,
+}
+
+#[allow(clippy::too_many_arguments)]
+fn audit(
+    idx: &Idx,
+    m: &Model,
+    cfgp: &BM25Params,
+    depth: Depth,
+    step: u64,
+    rng: &mut Rng,
+    st: &mut Stats,
+    au: &Au,
+) -> bool {
+    // counters
+    st.count("oracle_counters");
+    if idx.len() != m.docs.len() || idx.is_empty() != m.docs.is_empty() {
+        au.fail(st, "len", json!({"len": idx.len(), "model": m.docs.len()}));
+        return false;
+    }
+    for id in IDS.iter().chain(m.docs.keys()) {
+        let got = idx.get_doc_tokens(*id);
+        let exp = m.docs.get(id).map(|d| d.len);
+        if got != exp {
+            au.fail(st, "doc_tokens", json!({"id": id, "got": got, "model": exp}));
+            return false;
+        }
+    }
+    let stats = idx.stats();
+    let mean = m.mean_len();
+    if stats.num_elements != m.docs.len() as u64
+        || (!m.docs.is_empty() && (stats.avg_doc_tokens as f64 - mean).abs() > 1e-4 * mean)
+    {
+        au.fail(st, "stats", json!({"num_elements": stats.num_elements,
+            "avg_doc_tokens": stats.avg_doc_tokens, "model_docs": m.docs.len(), "model_mean": mean}));
+        return false;
+    }
+    if let Err(e) = idx.verif_check_invariants() {
+        au.fail(st, "invariant", json!(e));
+        return false;
+    }
+    // term queries
+    let deep_word = rng.usize(TERM_QUERIES.len());
+    for (i, q) in TERM_QUERIES.iter().enumerate() {
+        let deep = depth == Depth::Full && (i == deep_word || i == (deep_word + 7) % TERM_QUERIES.len());
+        if check_term_query(idx, m, q, None, cfgp, deep, rng, st, au).is_none() {
+            return false;
+        }
+    }
+    if depth == Depth::Full {
+        for n in [2usize, 2, 3, 4] {
+            let q = (0..n).map(|_| *rng.pick(&BOOL_WORDS)).collect::<Vec<_>>().join(" ");
+            if check_term_query(idx, m, &q, None, cfgp, false, rng, st, au).is_none() {
+                return false;
+            }
+        }
+    }
+    // boolean queries
+    let n_bool = if depth == Depth::Full { 5 } else { 2 };
+    for i in 0..n_bool {
+        let q = if i == 0 { fixed_query(step, rng) } else { gen_query(rng, 3) };
+        if check_bool_query(idx, m, &q, None, rng, st, au).is_none() {
+            return false;
+        }
+    }
+    // parameter sweep: scores stay finite, the set does not depend on the parameters
+    if depth == Depth::Full && step % 3 == 0 {
+        let w1 = *rng.pick(&BOOL_WORDS[..12]);
+        let w2 = format!("{} {}", pw(rng, &BOOL_WORDS[..12]), pw(rng, &BOOL_WORDS));
+        let bq = gen_query(rng, 2);
+        let base1 = idx.search(w1, BIG, None).iter().map(|(id, _)| *id).collect::<BTreeSet<_>>();
+        let base2 = idx.search(&w2, BIG, None).iter().map(|(id, _)| *id).collect::<BTreeSet<_>>();
+        let base3 = idx
+            .search_advanced(&render(&bq, false), BIG, None)
+            .iter()
+            .map(|(id, _)| *id)
+            .collect::<BTreeSet<_>>();
+        for (p, odd) in param_list() {
+            st.count("oracle_params");
+            if odd {
+                st.count("oracle_params_out_of_domain");
+            }
+            let r1 = check_term_query(idx, m, w1, Some(&p), cfgp, false, rng, st, au);
+            let r2 = check_term_query(idx, m, &w2, Some(&p), cfgp, false, rng, st, au);
+            let r3 = check_bool_query(idx, m, &bq, Some(&p), rng, st, au);
+            let (Some(r1), Some(r2), Some(r3)) = (r1, r2, r3) else {
+                return false;
+            };
+            if r1 != base1 || r2 != base2 || r3 != base3 {
+                au.fail(st, "params_change_result_set", json!({"params": format!("{p:?}"),
+                    "queries": [w1, w2.as_str(), render(&bq, false).as_str()]}));
+                return false;
+            }
+        }
+    }
+    true
+}
+
+// ---------------------------------------------------------------------------------------------
+// persistence through the callback API, with a recorded write sequence
+
+#[derive(Clone, Debug)]
+enum Write {
+    Bucket(BucketObject, Vec<u8>),
+    Meta(Vec<u8>),
+    Delete(BucketObject),
+}
+
+#[derive(Clone, Default)]
+struct Disk {
+    objects: HashMap<(u32, u64), Vec<u8>>,
+    meta: Option<Vec<u8>>,
+}
+
+impl Disk {
+    fn apply(&mut self, w: &Write) {
+        match w {
+            Write::Bucket(o, d) => {
+                self.objects.insert((o.bucket_id, o.generation), d.clone());
+            }
+            Write::Meta(d) => self.meta = Some(d.clone()),
+            Write::Delete(o) => {
+                self.objects.remove(&(o.bucket_id, o.generation));
+            }
+        }
+    }
+}
+
+/// Injected write fault. `land`: the write reaches the store and the error is returned anyway
+/// (unknown-outcome fault: what a cancelled or timed-out write looks like to the index).
+#[derive(Clone, Copy, Debug, PartialEq)]
+enum Fault {
+    None,
+    Meta { land: bool },
+    Bucket { at: usize, land: bool },
+}
+
+struct Flushed {
+    result: Result<bool, String>,
+    /// the writes that landed, in order (+ the obsolete deletions after a successful flush)
+    writes: Vec<Write>,
+    fired: bool,
+}
+
+fn flush_recorded(idx: &Idx, now: u64, fault: Fault) -> Flushed {
+    let log = RefCell::new(Vec::<Write>::new());
+    let n = std::cell::Cell::new(0usize);
+    let fired = std::cell::Cell::new(false);
+    let r = drive(idx.flush_with(
+        now,
+        |data: Vec<u8>| {
+            let (failed, land) = match fault {
+                Fault::Meta { land } => (true, land),
+                _ => (false, true),
+            };
+            if failed {
+                fired.set(true);
+            }
+            if land {
+                log.borrow_mut().push(Write::Meta(data));
+            }
+            async move {
+                if failed {
+                    Err::<(), BoxError>("injected metadata write failure".into())
+                } else {
+                    Ok(())
+                }
+            }
+        },
+        |obj: BucketObject, data: Vec<u8>| {
+            let i = n.get();
+            n.set(i + 1);
+            let (failed, land) = match fault {
+                Fault::Bucket { at, land } if at == i => (true, land),
+                _ => (false, true),
+            };
+            if failed {
+                fired.set(true);
+            }
+            if land {
+                log.borrow_mut().push(Write::Bucket(obj, data));
+            }
+            async move {
+                if failed {
+                    Err::<(), BoxError>("injected bucket write failure".into())
+                } else {
+                    Ok(())
+                }
+            }
+        },
+    ));
+    let mut writes = log.into_inner();
+    match r {
+        Ok(out) => {
+            // the documented caller duty: delete the replaced objects best-effort
+            for o in &out.obsolete {
+                writes.push(Write::Delete(*o));
+            }
+            Flushed { result: Ok(out.saved), writes, fired: fired.get() }
+        }
+        Err(e) => Flushed { result: Err(format!("{e:?}")), writes, fired: fired.get() },
+    }
+}
+
+fn load(disk: &Disk) -> Result<Option<Idx>, String> {
+    let Some(meta) = &disk.meta else {
+        return Ok(None);
+    };
+    let r = drive(BM25Index::load_all(tokenizer(), &meta[..], async |o: BucketObject| {
+        Ok(disk.objects.get(&(o.bucket_id, o.generation)).cloned())
+    }));
+    r.map(Some).map_err(|e| format!("{e:?}"))
+}
+
+fn describe_write(w: &Write) -> String {
+    match w {
+        Write::Bucket(o, d) => format!("bucket {}@{} ({}B)", o.bucket_id, o.generation, d.len()),
+        Write::Meta(d) => format!("metadata ({}B)", d.len()),
+        Write::Delete(o) => format!("delete {}@{}", o.bucket_id, o.generation),
+    }
+}
+
+/// Loads `disk` and runs the light audit against `expect` (already in its `reloaded()` form).
+fn check_loaded(
+    disk: &Disk,
+    expect: &Model,
+    cfgp: &BM25Params,
+    what: &str,
+    rng: &mut Rng,
+    st: &mut Stats,
+    ctx: &dyn Fn() -> Value,
+) -> Option<Idx> {
+    let au = Au { what, ctx };
+    match load(disk) {
+        Ok(None) => {
+            if !expect.docs.is_empty() {
+                au.fail(st, "no_metadata", json!({"expected_docs": expect.docs.len()}));
+            }
+            None
+        }
+        Err(e) => {
+            au.fail(st, "load_error", json!(e));
+            None
+        }
+        Ok(Some(idx)) => {
+            st.count("oracle_loaded_state");
+            if audit(&idx, expect, cfgp, Depth::Light, rng.below(8), rng, st, &au) {
+                Some(idx)
+            } else {
+                None
+            }
+        }
+    }
+}
+
+#[derive(serde::Serialize, serde::Deserialize)]
+struct MetaDoc {
+    metadata: BM25Metadata,
+}
+
+/// Converts a manifest layout into the pre-manifest one (generation 0 objects, empty manifest).
+fn to_legacy(disk: &Disk) -> Option<Disk> {
+    let meta = disk.meta.as_ref()?;
+    let mut doc: MetaDoc = cbor2::from_reader(&meta[..]).ok()?;
+    if doc.metadata.buckets.is_empty() {
+        return None;
+    }
+    let mut out = Disk::default();
+    for (id, generation) in &doc.metadata.buckets {
+        let data = disk.objects.get(&(*id, *generation))?;
+        out.objects.insert((*id, 0), data.clone());
+    }
+    doc.metadata.buckets.clear();
+    let mut buf = vec![];
+    cbor2::to_writer(&doc, &mut buf).ok()?;
+    out.meta = Some(buf);
+    Some(out)
+}
+
+// ---------------------------------------------------------------------------------------------
+// monitor 1+2: sequential histories with model comparison and flush crash prefixes
+
+/// Returns whether the history ever indexed a document over stale posting entries of its id.
+fn seq_case(
+    case: u64,
+    rng: &mut Rng,
+    st: &mut Stats,
+    n_ops: usize,
+    allow_grey: bool,
+    script: Option<(usize, Vec<Op>)>,
+) -> bool {
+    let mut overload = *rng.pick(&[40usize, 48, 64, 64, 100, 256, 512 * 1024]);
+    let mut tainted = false;
+    let n_ops = script.as_ref().map(|(_, s)| s.len()).unwrap_or(n_ops);
+    if let Some((o, _)) = &script {
+        overload = *o;
+    }
+    let cfgp = match rng.below(10) {
+        0 => BM25Params { k1: 0.0, b: 0.0 },
+        1 => BM25Params { k1: 2.0, b: 1.0 },
+        2 => BM25Params { k1: f32::NAN, b: f32::INFINITY },
+        3 => BM25Params { k1: f32::MAX, b: -1.0 },
+        _ => BM25Params::default(),
+    };
+    let legacy_start = script.is_none() && rng.chance(1, 6);
+    let mut idx = new_index(overload, &cfgp);
+    let mut model = Model::default();
+    let mut disk = Disk::default();
+    let mut committed = Model::default(); // what a load of the last committed snapshot holds
+    let mut history: Vec<String> = vec![];
+    let mut now = 1_000u64;
+    let mut kinds = std::collections::HashSet::new();
+    let mut n_flush = 0;
+
+    for step in 0..n_ops {
+        let op = if let Some((_, s)) = &script {
+            s[step].clone()
+        } else if legacy_start && step == 8 {
+            Op::Flush { reload: true }
+        } else {
+            gen_op(rng, &model, allow_grey)
+        };
+        now += 1;
+        history.push(format!("{op:?}"));
+        let ctx_hist = history.clone();
+        let cfg_s = format!("{cfgp:?}");
+        let ctx = move || {
+            json!({"bucket_overload_size": overload, "config_params": cfg_s, "case": case,
+                   "history": ctx_hist})
+        };
+        kinds.insert(std::mem::discriminant(&op));
+        match &op {
+            Op::Flush { reload } => {
+                n_flush += 1;
+                st.count(if *reload { "op_flush_reload" } else { "op_flush_keep_instance" });
+                // (a) optionally a failed flush first; the retry below must commit everything
+                if rng.chance(1, 3) {
+                    let land = rng.chance(1, 3);
+                    let fault = if rng.bool() {
+                        Fault::Meta { land }
+                    } else {
+                        Fault::Bucket { at: rng.usize(4), land }
+                    };
+                    let f = flush_recorded(&idx, now, fault);
+                    for w in &f.writes {
+                        disk.apply(w); // objects of a failed generation stay behind as garbage
+                    }
+                    let meta_landed = f.writes.iter().any(|w| matches!(w, Write::Meta(_)));
+                    if f.fired {
+                        st.count("flush_failed_injected");
+                        st.count(match fault {
+                            Fault::Meta { land: false } => "flush_failed_at_metadata",
+                            Fault::Meta { land: true } => "flush_unknown_outcome_at_metadata",
+                            Fault::Bucket { land: false, .. } => "flush_failed_at_bucket",
+                            _ => "flush_unknown_outcome_at_bucket",
+                        });
+                        if f.result.is_ok() {
+                            st.violation("C11/seq/flush_error_swallowed",
+                                json!({"fault": format!("{fault:?}"), "context": ctx()}));
+                        }
+                    }
+                    if meta_landed {
+                        committed = model.reloaded();
+                    }
+                    // what is on disk is the previous commit (or this one if its metadata landed)
+                    check_loaded(&disk, &committed, &cfgp, "after_failed_flush", rng, st, &|| {
+                        let mut c = ctx();
+                        c["fault"] = json!(format!("{fault:?}"));
+                        c
+                    });
+                    now += 1;
+                }
+                // (b) the real flush, recorded; every prefix of its write sequence is a crash state
+                let before = disk.clone();
+                let f = flush_recorded(&idx, now, Fault::None);
+                if let Err(e) = &f.result {
+                    st.violation("C11/seq/flush_failed", json!({"error": e, "context": ctx()}));
+                    return tainted;
+                }
+                let writes = f.writes;
+                let after = model.reloaded();
+                let commit_pos = writes.iter().position(|w| matches!(w, Write::Meta(_)));
+                if f.result == Ok(true) && commit_pos.is_none() {
+                    st.violation("C11/seq/flush_saved_without_commit", json!({"context": ctx()}));
+                }
+                for j in 0..=writes.len() {
+                    let mut d = before.clone();
+                    for w in &writes[..j] {
+                        d.apply(w);
+                    }
+                    let expect = match commit_pos {
+                        Some(c) if j > c => &after,
+                        _ => &committed,
+                    };
+                    st.count("flush_crash_prefixes");
+                    st.count(match commit_pos {
+                        Some(c) if j > c => "crash_prefix_after_commit",
+                        _ => "crash_prefix_before_commit",
+                    });
+                    let wr = &writes;
+                    let pctx = || {
+                        let mut c = ctx();
+                        c["crash_prefix"] = json!(j);
+                        c["writes"] = json!(wr.iter().map(describe_write).collect::<Vec<_>>());
+                        c
+                    };
+                    let loaded = check_loaded(&d, expect, &cfgp, "crash_prefix", rng, st, &pctx);
+                    // the recovered index must keep working: a few ops, flush, reload, compare
+                    if let Some(loaded) = loaded
+                        && rng.chance(1, 3)
+                    {
+                        let mut m2 = expect.clone();
+                        let mut d2 = d.clone();
+                        for _ in 0..4 {
+                            let op2 = gen_op(rng, &m2, allow_grey);
+                            if matches!(op2, Op::Flush { .. }) {
+                                continue;
+                            }
+                            let a = index_apply(&loaded, &op2, now);
+                            let b = m2.apply(&op2, &mut Stats::default());
+                            if !ret_agrees(&a, &b) {
+                                st.violation("C11/seq/op_after_recovery",
+                                    json!({"op": format!("{op2:?}"), "got": format!("{a:?}"),
+                                           "expected": format!("{b:?}"), "context": pctx()}));
+                            }
+                        }
+                        let f2 = flush_recorded(&loaded, now + 1, Fault::None);
+                        if f2.result.is_ok() {
+                            for w in &f2.writes {
+                                d2.apply(w);
+                            }
+                            check_loaded(&d2, &m2.reloaded(), &cfgp, "continue_after_recovery", rng, st, &pctx);
+                            st.count("recovered_index_continued");
+                        } else {
+                            st.violation("C11/seq/flush_failed_after_recovery",
+                                json!({"error": format!("{:?}", f2.result), "context": pctx()}));
+                        }
+                    }
+                }
+                for w in &writes {
+                    disk.apply(w);
+                }
+                if commit_pos.is_some() {
+                    committed = after.clone();
+                } else {
+                    // "nothing to save" is only right when the durable state already is the
+                    // current one
+                    st.count("flush_noop");
+                    check_loaded(&disk, &after, &cfgp, "flush_noop_but_state_differs", rng, st, &ctx);
+                    committed = after.clone();
+                }
+                if legacy_start && step == 8 {
+                    // rewrite what is on disk into the pre-manifest layout
+                    if let Some(d) = to_legacy(&disk) {
+                        disk = d;
+                        st.count("legacy_layout_seeded");
+                    }
+                }
+                if *reload || (legacy_start && step == 8) {
+                    match load(&disk) {
+                        Ok(Some(i)) => {
+                            idx = i;
+                            model = after;
+                        }
+                        Ok(None) => {}
+                        Err(e) => {
+                            st.violation("C11/seq/reload_failed", json!({"error": e, "context": ctx()}));
+                            return tainted;
+                        }
+                    }
+                }
+            }
+            _ => {
+                let got = index_apply(&idx, &op, now);
+                let exp = model.apply(&op, st);
+                st.count("ops_applied");
+                if model.docs.keys().any(|id| model.stale.contains_key(id)) {
+                    if !tainted {
+                        st.count("histories_indexing_over_stale_entries");
+                    }
+                    tainted = true;
+                }
+                if !ret_agrees(&got, &exp) {
+                    st.violation("C11/seq/return_value",
+                        json!({"op": format!("{op:?}"), "got": format!("{got:?}"),
+                               "expected": format!("{exp:?}"), "context": ctx()}));
+                    return tainted;
+                }
+            }
+        }
+        let depth = if step % 2 == 0 { Depth::Full } else { Depth::Light };
+        let au = Au { what: "seq", ctx: &ctx };
+        if !audit(&idx, &model, &cfgp, depth, step as u64, rng, st, &au) {
+            return tainted;
+        }
+        st.eval();
+    }
+    if kinds.len() >= 4 && n_flush >= 1 {
+        st.distinct(vcore::fnv_str(&history.join(";")));
+    }
+    st.sample(|| json!({"monitor": "sequential+crash_prefixes", "bucket_overload_size": overload,
+        "ops": history.iter().take(12).collect::<Vec<_>>()}));
+    tainted
+}
+
+/// Candidate defect, kept out of the verdict sections (see `main`): once a document id is
+/// re-inserted while posting entries of an earlier remove-with-non-original-text still exist
+/// for it, (1) those entries match again, (2) they get persisted together with the id's token
+/// count in buckets that a later, correct remove does not mark dirty, so the removed document
+/// is back after the next load. Every violation of a history that did this is filed under
+/// this one signature.
+const FINDING_SIG: &str = "C11/finding/reinsert_over_stale_postings";
+
+fn finding_case(case: u64, rng: &mut Rng, st: &mut Stats, n_ops: usize) {
+    let mut local = Stats::default();
+    // case 0: the minimal reproducer (bucket_overload_size 40: two 13-14 byte tokens per
+    // bucket, so dog/cat and moon/wolf land in different buckets whatever the token order)
+    let script = (case == 0).then(|| {
+        (40usize, vec![
+            Op::Insert(1, "dog cat".into()),
+            Op::Insert(2, "moon wolf".into()),
+            Op::Remove(1, "bird".into()),
+            Op::Insert(1, "moon".into()),
+            Op::Flush { reload: false },
+            Op::Remove(1, "moon".into()),
+            Op::Flush { reload: true },
+        ])
+    });
+    let tainted = seq_case(case, rng, &mut local, n_ops, true, script);
+    if tainted {
+        for v in local.violations.iter_mut() {
+            if v.signature.starts_with("C11/candidate/") {
+                continue;
+            }
+            v.detail["original_signature"] = json!(v.signature);
+            v.signature = FINDING_SIG.to_string();
+        }
+    }
+    st.merge(local);
+}
+
+fn finding_registered() -> bool {
+    let p = vcore::run::verif_root().join("known_findings.json");
+    let Some(v) = std::fs::read_to_string(p).ok().and_then(|t| serde_json::from_str::<Value>(&t).ok())
+    else {
+        return false;
+    };
+    v.get("findings").and_then(|f| f.as_array()).is_some_and(|a| {
+        a.iter().any(|f| {
+            f.get("property").and_then(|p| p.as_str()) == Some("C11")
+                && f.get("signature").and_then(|s| s.as_str()) == Some(FINDING_SIG)
+        })
+    })
+}
+
+// ---------------------------------------------------------------------------------------------
+// monitor 3: controlled thread schedules at verif points + per-document linearizability
+
+const HOT: [&str; 3] = ["red", "blue", "fox"];
+const FRESH: [&str; 5] = ["sun", "moon", "rock", "wind", "dog"];
+const COLD: [&str; 4] = ["salt", "gold", "iron", "wolf"];
+
+#[derive(Clone, Debug)]
+enum COp {
+    Insert(u64),
+    Remove(u64),
+    Purge(Vec<u64>),
+    Compact,
+    Search(&'static str),
+}
+
+#[derive(Clone, Debug, PartialEq)]
+enum CRet {
+    Ok,
+    AlreadyExists,
+    Err(String),
+    Bool(bool),
+    Count(usize),
+    Compacted(usize, usize),
+    Found(Vec<(u64, f32)>),
+}
+
+#[derive(Clone, Debug)]
+struct Rec {
+    thread: usize,
+    op: COp,
+    call: u64,
+    ret: u64,
+    result: CRet,
+}
+
+/// One concurrent scenario. Every id has one fixed text (so every remove is given the original
+/// text and no stale entry can legitimately exist). Ids are either touched by one thread only,
+/// or contended by several threads with operations of one kind (insert-insert, remove-remove/
+/// purge); `cross` additionally lets threads race insert against remove on the same id.
+#[derive(Clone, Debug)]
+struct Plan {
+    overload: usize,
+    texts: BTreeMap<u64, String>,
+    cold: Vec<(u64, String)>,
+    init_present: BTreeSet<u64>,
+    owner: BTreeMap<u64, usize>,
+    scripts: Vec<Vec<COp>>,
+}
+
+fn gen_plan(rng: &mut Rng, n_threads: usize, len: usize, own_per_thread: u64, cross: bool, force_compact: bool) -> Plan {
+    let mut texts = BTreeMap::new();
+    let mut owner = BTreeMap::new();
+    let mut init_present = BTreeSet::new();
+    let pool_text = |rng: &mut Rng| {
+        let mut ws: Vec<&str> = (0..1 + rng.usize(2)).map(|_| *rng.pick(&HOT)).collect();
+        if rng.bool() {
+            ws.push(pw(rng, &FRESH));
+        }
+        if rng.chance(1, 4) {
+            ws.push(ws[0]); // tf = 2
+        }
+        rng.shuffle(&mut ws);
+        ws.join(" ")
+    };
+    let race_insert: Vec<u64> = vec![1, 2];
+    let race_remove: Vec<u64> = vec![3, 4];
+    let race_any: Vec<u64> = if cross { vec![5, 6] } else { vec![] };
+    for id in race_insert.iter().chain(&race_remove).chain(&race_any) {
+        texts.insert(*id, pool_text(rng));
+    }
+    init_present.extend(race_remove.iter().copied());
+    for id in &race_any {
+        if rng.bool() {
+            init_present.insert(*id);
+        }
+    }
+    let mut own: Vec<Vec<u64>> = vec![];
+    for t in 0..n_threads {
+        let ids: Vec<u64> = (0..own_per_thread).map(|j| 10 * (t as u64 + 1) + j).collect();
+        for id in &ids {
+            texts.insert(*id, pool_text(rng));
+            owner.insert(*id, t);
+            if rng.chance(2, 5) {
+                init_present.insert(*id);
+            }
+        }
+        own.push(ids);
+    }
+    // cold documents: never touched by the threads; they create the buckets (> 1, so that a
+    // compaction has something to rebuild) and the background corpus for df / avgdl
+    let cold: Vec<(u64, String)> = (0..6u64)
+        .map(|i| {
+            let ws: Vec<&str> = (0..2 + rng.usize(2)).map(|_| *rng.pick(&COLD)).collect();
+            (1000 + i, format!("{} {}", COLD[i as usize % 4], ws.join(" ")))
+        })
+        .collect();
+    let mut scripts = vec![];
+    for own_ids in own.iter().take(n_threads) {
+        let mut present: BTreeMap<u64, bool> =
+            own_ids.iter().map(|id| (*id, init_present.contains(id))).collect();
+        let mut s = vec![];
+        for _ in 0..len {
+            let pick_own = |rng: &mut Rng, want: bool, present: &BTreeMap<u64, bool>| {
+                let c: Vec<u64> = present.iter().filter(|(_, p)| **p == want).map(|(i, _)| *i).collect();
+                if !c.is_empty() && rng.chance(5, 6) { *rng.pick(&c) } else { *rng.pick(own_ids) }
+            };
+            let op = match rng.weighted(&[26, 22, 6, 12, 12, 7, 10, if cross { 25 } else { 0 }]) {
+                0 => {
+                    let id = pick_own(rng, false, &present);
+                    present.insert(id, true);
+                    COp::Insert(id)
+                }
+                1 => {
+                    let id = pick_own(rng, true, &present);
+                    present.insert(id, false);
+                    COp::Remove(id)
+                }
+                2 => {
+                    let id = pick_own(rng, true, &present);
+                    present.insert(id, false);
+                    let mut ids = vec![id];
+                    if rng.chance(1, 3) {
+                        ids.push(*rng.pick(&race_remove));
+                    }
+                    COp::Purge(ids)
+                }
+                3 => COp::Insert(*rng.pick(&race_insert)),
+                4 => {
+                    if rng.bool() {
+                        COp::Remove(*rng.pick(&race_remove))
+                    } else {
+                        COp::Purge(vec![*rng.pick(&race_remove)])
+                    }
+                }
+                5 => COp::Compact,
+                6 => COp::Search(if rng.chance(2, 3) { *rng.pick(&HOT) } else { *rng.pick(&FRESH) }),
+                _ => {
+                    if rng.bool() {
+                        COp::Insert(*rng.pick(&race_any))
+                    } else {
+                        COp::Remove(*rng.pick(&race_any))
+                    }
+                }
+            };
+            s.push(op);
+        }
+        scripts.push(s);
+    }
+    if force_compact {
+        let t = rng.usize(n_threads);
+        let pos = rng.usize(len);
+        scripts[t][pos] = COp::Compact;
+    }
+    Plan { overload: *rng.pick(&[40usize, 48, 64, 100]), texts, cold, init_present, owner, scripts }
+}
+
+fn exec(idx: &Idx, plan: &Plan, op: &COp) -> CRet {
+    match op {
+        COp::Insert(id) => match idx.insert(*id, &plan.texts[id], 2) {
+            Ok(()) => CRet::Ok,
+            Err(BM25Error::AlreadyExists { .. }) => CRet::AlreadyExists,
+            Err(e) => CRet::Err(format!("{e:?}")),
+        },
+        COp::Remove(id) => CRet::Bool(idx.remove(*id, &plan.texts[id], 2)),
+        COp::Purge(ids) => CRet::Count(idx.purge_ids(&ids.iter().copied().collect(), 2)),
+        COp::Compact => {
+            let (a, b) = idx.compact_buckets();
+            CRet::Compacted(a, b)
+        }
+        COp::Search(w) => CRet::Found(idx.search(w, BIG, None)),
+    }
+}
+
+struct Outcome {
+    recs: Vec<Rec>,
+    trace: Vec<(u8, &'static str)>,
+    end: SchedEnd,
+    idx: Arc<Idx>,
+}
+
+fn run_plan(plan: &Plan, chooser: &mut dyn Chooser, stress_seed: Option<u64>) -> Outcome {
+    let idx: Arc<Idx> = Arc::new(new_index(plan.overload, &BM25Params::default()));
+    for (id, text) in &plan.cold {
+        let _ = idx.insert(*id, text, 1);
+    }
+    for id in &plan.init_present {
+        let _ = idx.insert(*id, &plan.texts[id], 1);
+    }
+    let clock = Arc::new(AtomicU64::new(1));
+    let sched = TurnSched::new(plan.scripts.len());
+    let recs: Arc<std::sync::Mutex<Vec<Rec>>> = Arc::new(std::sync::Mutex::new(vec![]));
+    let mut trace = vec![];
+    let mut end = SchedEnd::AllFinished;
+    std::thread::scope(|s| {
+        for (t, script) in plan.scripts.iter().enumerate() {
+            let (idx, clock, sched, recs) = (idx.clone(), clock.clone(), sched.clone(), recs.clone());
+            s.spawn(move || {
+                if let Some(seed) = stress_seed {
+                    vcore::sched::enable_stress(seed ^ ((t as u64) << 8), 2);
+                } else {
+                    sched.register(t);
+                }
+                for op in script {
+                    let call = clock.fetch_add(1, Ordering::SeqCst);
+                    let result = exec(&idx, plan, op);
+                    let ret = clock.fetch_add(1, Ordering::SeqCst);
+                    recs.lock().unwrap().push(Rec { thread: t, op: op.clone(), call, ret, result });
+                }
+                if stress_seed.is_some() {
+                    vcore::sched::disable_stress();
+                } else {
+                    sched.finish(t);
+                }
+            });
+        }
+        if stress_seed.is_none() {
+            let (e, tr) = sched.control(chooser, Duration::from_millis(2), Duration::from_secs(20));
+            end = e;
+            trace = tr;
+        }
+    });
+    let recs = recs.lock().unwrap().clone();
+    Outcome { recs, trace, end, idx }
+}
+
+/// effect of one recorded op on one document id
+#[derive(Clone, Debug)]
+struct Ev {
+    call: u64,
+    ret: u64,
+    add: bool,
+    /// insert: Some(true) = Ok, Some(false) = AlreadyExists; remove/purge: Some(was indexed)
+    outcome: Option<bool>,
+}
+
+fn doc_events(recs: &[Rec], id: u64) -> Vec<Ev> {
+    let mut v = vec![];
+    for r in recs {
+        let mut push = |add: bool, outcome: Option<bool>| v.push(Ev { call: r.call, ret: r.ret, add, outcome });
+        match (&r.op, &r.result) {
+            (COp::Insert(i), CRet::Ok) if *i == id => push(true, Some(true)),
+            (COp::Insert(i), CRet::AlreadyExists) if *i == id => push(true, Some(false)),
+            (COp::Remove(i), CRet::Bool(b)) if *i == id => push(false, Some(*b)),
+            (COp::Purge(ids), CRet::Count(n)) if ids.contains(&id) => {
+                let distinct: BTreeSet<&u64> = ids.iter().collect();
+                let outcome = if *n == 0 {
+                    Some(false)
+                } else if *n == distinct.len() {
+                    Some(true)
+                } else {
+                    None
+                };
+                push(false, outcome)
+            }
+            _ => {}
+        }
+    }
+    v
+}
+
+/// Wing-Gong search over one document's sub-history; the state is "indexed or not".
+fn linearizable(evs: &[Ev], init: bool, fin: bool) -> bool {
+    fn rec(
+        evs: &[Ev],
+        done: u32,
+        state: bool,
+        fin: bool,
+        memo: &mut std::collections::HashSet<(u32, bool)>,
+    ) -> bool {
+        if done.count_ones() as usize == evs.len() {
+            return state == fin;
+        }
+        if !memo.insert((done, state)) {
+            return false;
+        }
+        let min_ret = evs
+            .iter()
+            .enumerate()
+            .filter(|(i, _)| done & (1 << i) == 0)
+            .map(|(_, e)| e.ret)
+            .min()
+            .unwrap();
+        for (i, e) in evs.iter().enumerate() {
+            if done & (1 << i) != 0 || e.call > min_ret {
+                continue;
+            }
+            let next = match (e.add, e.outcome) {
+                (true, Some(true)) => (!state).then_some(true),
+                (true, Some(false)) => state.then_some(true),
+                (true, None) => Some(true),
+                (false, Some(b)) => (b == state).then_some(false),
+                (false, None) => Some(false),
+            };
+            if let Some(s) = next
+                && rec(evs, done | (1 << i), s, fin, memo)
+            {
+                return true;
+            }
+        }
+        false
+    }
+    let mut memo = std::collections::HashSet::new();
+    rec(evs, 0, init, fin, &mut memo)
+}
+
+fn judge_concurrent(out: &Outcome, plan: &Plan, mode: &str, rng: &mut Rng, st: &mut Stats) {
+    let idx = &*out.idx;
+    let ctx = || {
+        json!({"mode": mode, "bucket_overload_size": plan.overload,
+               "texts": plan.texts.iter().map(|(i, t)| format!("{i}: {t}")).collect::<Vec<_>>(),
+               "cold": plan.cold, "initially_indexed": plan.init_present,
+               "scripts": plan.scripts.iter().map(|s| s.iter().map(|o| format!("{o:?}")).collect::<Vec<_>>()).collect::<Vec<_>>(),
+               "history": out.recs.iter().map(|r| format!("t{} [{}..{}] {:?} -> {:?}", r.thread, r.call, r.ret, r.op, r.result)).collect::<Vec<_>>(),
+               "hook_trace": out.trace.iter().map(|(t, g)| format!("t{t}:{g}")).collect::<Vec<_>>()})
+    };
+    if out.end == SchedEnd::Watchdog {
+        st.inconclusive("C11 thread schedule: watchdog fired (threads neither parked nor finished)");
+        return;
+    }
+    for r in &out.recs {
+        if let CRet::Err(e) = &r.result {
+            st.violation("C11/concurrent/unexpected_error", json!({"error": e, "context": ctx()}));
+            return;
+        }
+    }
+    // per-document linearizability of the acknowledged results and the final state
+    let mut fin_docs = BTreeMap::new();
+    for (id, text) in &plan.cold {
+        fin_docs.insert(*id, text.clone());
+    }
+    for (id, text) in &plan.texts {
+        let fin = idx.get_doc_tokens(*id).is_some();
+        let evs = doc_events(&out.recs, *id);
+        if evs.len() > 24 {
+            st.count("linearizability_skipped_history_too_long");
+        } else {
+            st.count("linearizability_checks");
+            if !linearizable(&evs, plan.init_present.contains(id), fin) {
+                st.violation("C11/concurrent/not_linearizable",
+                    json!({"document": id, "initially_indexed": plan.init_present.contains(id),
+                           "finally_indexed": fin,
+                           "events": evs.iter().map(|e| format!("{e:?}")).collect::<Vec<_>>(),
+                           "context": ctx()}));
+                return;
+            }
+        }
+        if fin {
+            fin_docs.insert(*id, text.clone());
+        }
+    }
+    // a thread's own documents (touched by nobody else) are visible to its searches exactly
+    // while they are indexed
+    for t in 0..plan.scripts.len() {
+        let mut present: BTreeMap<u64, bool> = plan
+            .owner
+            .iter()
+            .filter(|(_, o)| **o == t)
+            .map(|(id, _)| (*id, plan.init_present.contains(id)))
+            .collect();
+        for r in out.recs.iter().filter(|r| r.thread == t) {
+            match (&r.op, &r.result) {
+                (COp::Insert(id), CRet::Ok) if present.contains_key(id) => {
+                    present.insert(*id, true);
+                }
+                (COp::Remove(id), _) if present.contains_key(id) => {
+                    present.insert(*id, false);
+                }
+                (COp::Purge(ids), _) => {
+                    for id in ids {
+                        if present.contains_key(id) {
+                            present.insert(*id, false);
+                        }
+                    }
+                }
+                (COp::Search(w), CRet::Found(res)) => {
+                    st.count("concurrent_search_observations");
+                    let qt = toks(w);
+                    if res.iter().any(|(_, s)| *s < 0.0) {
+                        st.count("concurrent_search_transient_negative_score"); // racing df vs N: not asserted
+                    }
+                    if let Err(e) = check_ranked(res, false) {
+                        st.violation("C11/concurrent/search_ranking",
+                            json!({"query": w, "got": show(res), "problem": e, "context": ctx()}));
+                        return;
+                    }
+                    for (id, p) in &present {
+                        let matches = toks(&plan.texts[id]).keys().any(|k| qt.contains_key(k));
+                        let found = res.iter().any(|(i, _)| i == id);
+                        if matches && found != *p {
+                            st.violation("C11/concurrent/own_document_visibility",
+                                json!({"thread": t, "query": w, "document": id, "indexed": p,
+                                       "found": found, "got": show(res), "context": ctx()}));
+                            return;
+                        }
+                    }
+                }
+                _ => {}
+            }
+        }
+    }
+    // the quiescent index answers exactly from the surviving documents
+    let mut model = Model::default();
+    for (id, text) in &fin_docs {
+        let t = toks(text);
+        model.docs.insert(*id, Doc { text: text.clone(), len: t.values().sum(), toks: t });
+    }
+    let dp = BM25Params::default();
+    let au = Au { what: "concurrent/memory", ctx: &ctx };
+    if !audit(idx, &model, &dp, Depth::Light, rng.below(8), rng, st, &au) {
+        return;
+    }
+    // persistence sees exactly the in-memory content (a concurrent compaction lost nothing)
+    let mut disk = Disk::default();
+    let f = flush_recorded(idx, 3, Fault::None);
+    if let Err(e) = &f.result {
+        st.violation("C11/concurrent/flush_error", json!({"error": e, "context": ctx()}));
+        return;
+    }
+    for w in &f.writes {
+        disk.apply(w);
+    }
+    if check_loaded(&disk, &model, &dp, "concurrent/reload", rng, st, &ctx).is_none() && !model.docs.is_empty() {
+        return;
+    }
+    // the same instance keeps working: sequential follow-up, second (incremental) flush, reload
+    let mut follow = vec![
+        Op::Insert(2000, format!("{} {} {}", HOT[rng.usize(3)], HOT[rng.usize(3)], FRESH[rng.usize(5)])),
+        Op::Insert(2001, format!("{} {} {}", FRESH[rng.usize(5)], FRESH[rng.usize(5)], HOT[rng.usize(3)])),
+    ];
+    let live_pool: Vec<u64> = plan.texts.keys().filter(|id| model.docs.contains_key(id)).copied().collect();
+    if !live_pool.is_empty() {
+        let id = *rng.pick(&live_pool);
+        follow.insert(1, Op::Remove(id, plan.texts[&id].clone()));
+    }
+    for op in &follow {
+        let a = index_apply(idx, op, 4);
+        let b = model.apply(op, &mut Stats::default());
+        if !ret_agrees(&a, &b) {
+            st.violation("C11/concurrent/followup_return_value",
+                json!({"op": format!("{op:?}"), "got": format!("{a:?}"), "expected": format!("{b:?}"), "context": ctx()}));
+            return;
+        }
+    }
+    let f = flush_recorded(idx, 5, Fault::None);
+    if let Err(e) = &f.result {
+        st.violation("C11/concurrent/flush_error", json!({"error": e, "context": ctx()}));
+        return;
+    }
+    for w in &f.writes {
+        disk.apply(w);
+    }
+    let fctx = || {
+        let mut c = ctx();
+        c["followup"] = json!(follow.iter().map(|o| format!("{o:?}")).collect::<Vec<_>>());
+        c
+    };
+    check_loaded(&disk, &model.reloaded(), &dp, "concurrent/reload_after_followup", rng, st, &fctx);
+}
+
+fn note_trace(out: &Outcome, case: u64, st: &mut Stats) {
+    st.eval();
+    st.count("schedules_run");
+    st.set(
+        "distinct_hook_interleavings",
+        vcore::hash_debug(&out.trace) ^ case.wrapping_mul(0x9e3779b97f4a7c15),
+    );
+    for (_, tag) in &out.trace {
+        if *tag != "start" {
+            st.count(&format!("tag:{tag}"));
+        }
+    }
+    st.max("max_schedule_len", out.trace.len() as u64);
+}
+
+fn sched_case(case: u64, rng: &mut Rng, st: &mut Stats, budget_runs: u64, three: bool, cross: bool) {
+    let n_threads = if three { 3 } else { 2 };
+    let len = if three { 1 + rng.usize(2) } else { 2 + rng.usize(2) };
+    let force_compact = rng.bool();
+    let plan = gen_plan(rng, n_threads, len, 2, cross, force_compact);
+    let mut dfs = DfsChooser::new();
+    let mut runs = 0;
+    let mut exhausted = false;
+    loop {
+        dfs.begin_run();
+        let out = run_plan(&plan, &mut dfs, None);
+        runs += 1;
+        note_trace(&out, case, st);
+        judge_concurrent(&out, &plan, "S-hook/DFS", rng, st);
+        if !st.violations.is_empty() {
+            break;
+        }
+        if !dfs.next_run() {
+            exhausted = true;
+            break;
+        }
+        if runs >= budget_runs {
+            break;
+        }
+    }
+    st.count(if exhausted { "schedule_spaces_exhausted" } else { "schedule_spaces_truncated" });
+    if !exhausted && st.violations.is_empty() {
+        // the DFS only varied the tail of the schedule: top up with random schedules
+        let mut rc = RandChooser(rng.fork());
+        for _ in 0..budget_runs / 2 {
+            let out = run_plan(&plan, &mut rc, None);
+            runs += 1;
+            note_trace(&out, case, st);
+            judge_concurrent(&out, &plan, "S-hook/random", rng, st);
+            if !st.violations.is_empty() {
+                break;
+            }
+        }
+    }
+    st.distinct(vcore::hash_debug(&plan.scripts) ^ vcore::hash_debug(&plan.texts));
+    st.sample(|| json!({"monitor": "thread_schedules", "threads": n_threads,
+        "scripts": plan.scripts.iter().map(|s| s.iter().map(|o| format!("{o:?}")).collect::<Vec<_>>()).collect::<Vec<_>>(),
+        "texts": plan.texts, "schedules": runs, "exhaustive": exhausted}));
+}
+
+fn stress_case(_case: u64, rng: &mut Rng, st: &mut Stats, ops_per_thread: usize) {
+    let plan = gen_plan(rng, 4, ops_per_thread, 3, false, true);
+    let mut dummy = DfsChooser::new();
+    let out = run_plan(&plan, &mut dummy, Some(rng.next_u64()));
+    st.eval();
+    st.count("stress_runs");
+    st.add("stress_ops", (4 * ops_per_thread) as u64);
+    judge_concurrent(&out, &plan, "stress", rng, st);
+}
+
+// ---------------------------------------------------------------------------------------------
+
 fn main() {
-    println!("INCONCLUSIVE property=C11 monitor not built yet");
-    std::process::exit(2);
+    let mut run = Run::from_args(
+        "C11",
+        "exploration",
+        "seeded operation histories over a 12-word vocabulary (+ inflected forms) x 20 ids with \
+         small bucket_overload_size; a history is non-trivial when it uses >= 4 operation kinds \
+         and >= 1 flush (distinct by op sequence); thread-schedule cases are distinct by script \
+         set + texts, interleavings by hook trace",
+    );
+    anda_db_utils::verif::set_hook(Some(vcore::sched::hook));
+    if run.arg_u64("strict_stale", 0) != 0 {
+        STRICT_STALE.store(true, Ordering::Relaxed);
+    }
+    run.assume("flush is never run concurrently with mutations or compaction (documented caller contract)");
+    run.assume("crash model of the callback API: each bucket/metadata write is atomic, the sequence is interruptible anywhere; a failing write may or may not have landed");
+    run.assume("model tokens come from the crate's own default tokenizer + collect_tokens (the tokenizer is not under test)");
+    run.assume("remove with non-original text: entries it leaves behind are asserted invisible while the id is not indexed and pruned by a load; verdict histories re-insert such an id only with the tokens it had (which makes the entries current again); re-inserting it with other tokens is exercised in the separate section stale_reinsert (candidate defect, see sections_not_run / known findings)");
+    run.assume("threads blocked on a real lock are recognised by a 2 ms no-transition window; this shapes exploration only");
+    run.assume("no two threads race an insert against a remove of the same id (ids are caller-assigned and unique; see report)");
+    let t = run.tier;
+    let cross_only = run.only.as_deref() == Some("sameid");
+    if run.wants("seq") {
+        run.parallel("seq", t.pick(1200, 40000), t.pick(0.25, 0.4), |c, rng, st| {
+            seq_case(c, rng, st, 40, false, None);
+        });
+    }
+    if run.wants("sched") {
+        run.parallel("sched2", t.pick(56, 1500), t.pick(0.22, 0.4), |c, rng, st| {
+            sched_case(c, rng, st, t.pick(100, 1200), false, false)
+        });
+        run.parallel("sched3", t.pick(20, 500), t.pick(0.2, 0.5), |c, rng, st| {
+            sched_case(c, rng, st, t.pick(80, 800), true, false)
+        });
+    }
+    if run.wants("stress") {
+        run.parallel("stress", t.pick(800, 20000), t.pick(0.2, 0.7), |c, rng, st| {
+            stress_case(c, rng, st, t.pick(30, 120))
+        });
+    }
+    if cross_only {
+        // experiment, never part of a verdict run: insert racing remove on the same id
+        run.parallel("sameid", t.pick(64, 800), 0.9, |c, rng, st| {
+            sched_case(c, rng, st, t.pick(150, 1000), false, true)
+        });
+    }
+    // Histories that index a document over stale entries of its id: a candidate defect of the
+    // crate, not part of the verdict until it is registered in known_findings.json (then it is
+    // run and reported as KNOWN-FINDING); `--only finding` runs it unconditionally.
+    let run_finding = run.only.as_deref() == Some("finding")
+        || run.replay.is_some()
+        || (run.only.is_none() && finding_registered());
+    if run_finding {
+        // last section: its violations must not crowd out those of the verdict sections
+        run.parallel("stale_reinsert", t.pick(300, 6000), t.pick(0.3, 0.9), |c, rng, st| finding_case(c, rng, st, 40));
+    } else if run.only.is_none() {
+        run.set_extra("sections_not_run", json!([format!(
+            "stale_reinsert: candidate defect {FINDING_SIG} is not registered in known_findings.json (run with --only finding)")]));
+    }
+    run.floor("flush_crash_prefixes", 200);
+    run.floor("crash_prefix_before_commit", 50);
+    run.floor("crash_prefix_after_commit", 50);
+    run.floor("flush_failed_injected", 20);
+    run.floor("flush_failed_at_metadata", 5);
+    run.floor("recovered_index_continued", 20);
+    run.floor("op_insert_already_exists", 50);
+    run.floor("op_insert_tokenize_failed", 50);
+    run.floor("op_remove_non_original", 50);
+    run.floor("op_reinsert_after_non_original_remove", 20);
+    run.floor("op_purge_hit", 50);
+    run.floor("op_compact", 50);
+    run.floor("oracle_bool_query", 2000);
+    run.floor("bool_all_not_conjunction", 100);
+    run.floor("bool_double_negation", 100);
+    run.floor("bool_top_level_not", 100);
+    run.floor("oracle_params_out_of_domain", 500);
+    run.floor("oracle_score_formula", 2000);
+    run.floor("oracle_prefix_law", 5000);
+    run.floor("oracle_loaded_state", 200);
+    run.floor("schedules_run", 50);
+    run.floor("linearizability_checks", 100);
+    run.floor_set("distinct_hook_interleavings", 20);
+    for tag in [
+        "tag:bm25.insert.before_token",
+        "tag:bm25.insert.after_postings",
+        "tag:bm25.insert.after_buckets",
+        "tag:bm25.remove.after_doc_tokens",
+        "tag:bm25.remove.after_postings",
+        "tag:bm25.remove.after_remove_if",
+        "tag:bm25.remove.after_buckets",
+        "tag:bm25.purge.after_doc_tokens",
+        "tag:bm25.purge.after_sweep",
+        "tag:bm25.purge.after_remove_if",
+        "tag:bm25.purge.after_resize",
+        "tag:bm25.compact.before_gate",
+        "tag:bm25.compact.in_gate",
+        "tag:bm25.compact.after_snapshot",
+        "tag:bm25.compact.after_clear",
+    ] {
+        run.floor(tag, 1);
+    }
+    run.finish();
 }
